@@ -71,7 +71,13 @@ MANIFEST = dict(
           "runs of the same calls that differ in every pool choice and iteration order are indistinguishable "
           "(c03_pool_choice_unobservable); every call sequence has a legal oracle history (c03_validrun_exists). The acceptor now also "
           "checks the iteration-order oracle against its constraint (the order read off an observed Keys() must visit every bucket "
-          "exactly once), so a Keys() that skips whole buckets is rejected."),
+          "exactly once), so a Keys() that skips whole buckets is rejected. Acceptor audit additions: the value returned next to "
+          "ok == false by Get/Delete (HashMap, LinkedMap, builtinMap, MultiMap.Delete) must be the zero value - the model's answer for "
+          "an absent key is (zero, false) - and is printed as `miss-nonzero:<v>` otherwise; the fact extractor refuses a source in which "
+          "the node pool is touched anywhere but newNode (Get) and Delete (Put after formatting), or newNode is called from anywhere but "
+          "Put, because c03_pool_nodes_clean and the `freed=` observation know no other way into the pool; `=> na` (case not run) is "
+          "accepted only for the unexported builtinMap wrapper in a black-box run; stats.json records where in its collision chain the "
+          "key of every put/delete/get sat (only/head/middle/tail/not-in-chain/no-bucket) and where recycled nodes were linked in."),
     note=COMMON_NOTE + " Go map iteration order and sync.Pool.Get are oracles (any permutation of the buckets / any pooled or new node); "
          "the doubly linked ring of LinkedMap is modelled as the list of its entries with allocation ids for pointers; which of several "
          "Equals keys a map stores is fixed by the model (the first) but not demanded by the spec oracle; slice aliasing is probed "
